@@ -250,14 +250,19 @@ def _length_difference(fn, n, call, di):
     if k2 != "iadd":
       continue
     tl = _times_len(v)
-    if not tl or not isinstance(tl[1], ast.Name):
+    if not tl:
       continue
-    cdefs = [(m.id, m.stmt.value) for m in cfg.nodes if m.kind == "stmt" and
-             isinstance(m.stmt, ast.Assign) and isinstance(m.stmt.targets[0], ast.Name) and
-             m.stmt.targets[0].id == tl[1].id]
-    if len(cdefs) != 1:
+    if isinstance(tl[1], ast.BinOp):          # the count written inline
+      cid, cv = d.id, tl[1]
+    elif isinstance(tl[1], ast.Name):
+      cdefs = [(m.id, m.stmt.value) for m in cfg.nodes if m.kind == "stmt" and
+               isinstance(m.stmt, ast.Assign) and isinstance(m.stmt.targets[0], ast.Name) and
+               m.stmt.targets[0].id == tl[1].id]
+      if len(cdefs) != 1:
+        continue
+      cid, cv = cdefs[0]
+    else:
       continue
-    cid, cv = cdefs[0]
     if not (isinstance(cv, ast.BinOp) and isinstance(cv.op, ast.Sub) and
             text(cv.left) == "len(%s)" % recv and isinstance(cv.right, ast.Name) and
             cv.right.id in lens):
